@@ -69,6 +69,9 @@ def gen_dest(rnd, allow_matcher=True):
     return addr, opts
 
 
+WS_RND = None      # set by run(): the PRNG for layout-only choices
+
+
 def dest_str(d):
     return " ".join([d[0]] + ["%s=%s" % kv for kv in d[1]])
 
@@ -146,7 +149,12 @@ def render_toml(e):
             sub, substr = "", v
         else:
             t += "%s = %s\n" % (k, tq(v))
-    t += "destinations = [\n" + "".join("  %s,\n" % tq(dest_str(d)) for d in dests) + "]\n"
+    # in the file the options of a destination may be aligned in columns: runs of blanks between them (the text the model
+    # gets, `tok`, is the same destination with single blanks)
+    def spaced(d):
+        sep = WS_RND.choice([" ", " ", "  ", "   ", " \t "]) if WS_RND is not None else " "
+        return sep.join([d[0]] + ["%s=%s" % kv for kv in d[1]])
+    t += "destinations = [\n" + "".join("  %s,\n" % tq(spaced(d)) for d in dests) + "]\n"
     tok = "R:%s:%s:%s:%s:%s:%s:%s:%s:%s:%s" % (typ, hx(key), hx(m.get("prefix", "")), hx(m.get("notPrefix", "")), hx(sub), hx(substr), hx(m.get("notSub", "")),
                                              hx(m.get("regex", "")), hx(m.get("notRegex", "")), ";".join(hx(dest_str(d)) for d in dests))
     return t, tok, None
@@ -313,6 +321,8 @@ def run(ctx):
     ctx.assumptions += ["option values that tokenise as a single `word` (no spaces; not all digits, not `true`/`false`, not a function name followed by a space)",
                         "TOML decoding into cfg.Config is external (BurntSushi/toml); the model starts from the decoded sections",
                         "kafkaMdm / pubsub / cloudWatch routes are outside the correspondence (they need brokers/credentials); grafanaNet through the monitor only"]
+    global WS_RND
+    WS_RND = ctx.rng("c20ws")
     ctx.prepare()
     ctx.lean(["Crng.Props.C20"], ["Crng.Props.C20.dest_option_sets_its_field", "Crng.Props.C20.dest_defaults", "Crng.Props.C20.dest_options_commute",
                                   "Crng.Props.C20.route_option_sets_its_field", "Crng.Props.C20.expand_only_documented", "Crng.Props.C20.expand_group_refs"],
